@@ -167,3 +167,37 @@ Proof.
     destruct (bytes_eqb nm (bs "b")); [intros [= <-]; cbn; repeat split; lia|discriminate]. }
   intros tpl Ht. rewrite Ht in Hr. exact Hr.
 Qed.
+
+(* ---- the wording taken literally: a filled reserve IS its content in its place (Proofs/ReserveSplice.v,
+   on top of Proofs/SpecMono.v: the specification's budget only decides whether it answers) *)
+From TW Require Import SpecMono ReserveSplice.
+
+Theorem C06_specification_budget_only_decides_whether f g sc ns r :
+  (f <= g)%nat -> run_nodes model_call_spec f sc ns = r -> r <> TNoFuel -> run_nodes model_call_spec g sc ns = r.
+Proof. exact (run_nodes_fuel_mono f g sc ns r). Qed.
+Print Assumptions C06_specification_budget_only_decides_whether.
+
+Theorem C06_filled_reserve_is_its_content sc pre n rid b a post r :
+  (forall sc' rb, RunsTo sc' b rb -> match rb with TOk _ s _ => s = SigNormal | _ => True end) ->
+  RunsTo sc (pre ++ NReserve n rid (Some b) a :: post) r -> RunsTo sc (pre ++ b ++ post) r.
+Proof. exact (filled_reserve_is_its_content sc pre n rid b a post r). Qed.
+Print Assumptions C06_filled_reserve_is_its_content.
+
+Theorem C06_inserts_of_quiet_nodes_qualify b :
+  Forall quiet_node b -> forall sc' rb, RunsTo sc' b rb -> match rb with TOk _ s _ => s = SigNormal | _ => True end.
+Proof. exact (quiet_list b). Qed.
+
+Theorem C06_expression_reserve_is_a_print sc pre n rid e post f :
+  run_nodes model_call_spec f sc (pre ++ NReserve n rid None (Some e) :: post) =
+  run_nodes model_call_spec f sc (pre ++ NPrint e :: post).
+Proof. exact (expression_reserve_is_a_print sc pre n rid e post f). Qed.
+
+Theorem C06_unfilled_reserve_is_nothing sc pre n rid post r :
+  RunsTo sc (pre ++ NReserve n rid None None :: post) r -> RunsTo sc (pre ++ post) r.
+Proof. exact (unfilled_reserve_is_nothing sc pre n rid post r). Qed.
+Print Assumptions C06_unfilled_reserve_is_nothing.
+
+(* non-vacuity: the block insert of the example above consists of quiet nodes *)
+Example C06_example_insert_is_quiet :
+  Forall quiet_node [NText (bs "<b>"); NPrint (XBin BAdd (XVar (bs "n")) (XInt 1)); NText (bs "</b>")].
+Proof. repeat constructor; first [apply quiet_text|apply quiet_print]. Qed.
